@@ -49,7 +49,7 @@ def run_shard(shard, ctx):
         tag = ("c06", kind, D, R)
         Sig = objs.spd_batch(D, R, vi, seed, tag, diag=diag)
         mu = objs.vec_batch(D, R, vi, seed, tag)
-        which = ("fresh", "sliced_neg", "updated", "Sigma+Lambda", "queried", "replaced_mu", "prod_conjugate", "conditioned", "prod_linear", "prod_constant", "hadamard_onerank", "multiply_onerank", "joint_of_cond", "hadamard_linear_bcast", "hadamard_linear_bcast>marginal", "hadamard_linear_bcast>slice") if (vi == 0 and D <= 3) else ("fresh",)
+        which = ("fresh", "sliced_neg", "updated", "Sigma+Lambda", "queried", "replaced_mu", "prod_conjugate", "conditioned", "prod_linear", "prod_constant", "hadamard_onerank", "multiply_onerank", "joint_of_cond", "hadamard_linear_bcast", "hadamard_linear_bcast>marginal", "hadamard_linear_bcast>slice", "posterior_identity") if (vi == 0 and D <= 3) else ("fresh",)
         for prep, mkp, mu_e, Sig_e in objs.pdf_variants(kind, Sig, mu, which=which):
             with ctx.guard("prepare." + prep, dict(prep=prep)) as g:
                 p = mkp()
